@@ -546,3 +546,320 @@ Proof.
 Qed.
 
 End NM.
+
+(* ------------------------------------------------------------------------------------------ *)
+(* (2) the gated states act as soon as the synchronisation pause is over                        *)
+
+Definition gapdue (f : fdl) : bool := match f_gap f with GapDoPoll _ => true | GapWaiting _ => false end.
+
+(* the states the monitor calls gated (pmon_poll: gated), as a function of the station state *)
+Definition gatedS (s : state) : bool :=
+  match s with
+  | PassToken _ _ | UseToken _ _ _ => true
+  | ClaimToken (StepScanAwaitResponse _) => false
+  | ClaimToken _ => true
+  | ListenToken (Some _) _ | ActiveIdle (Some _) _ _ => true
+  | _ => false
+  end.
+
+Section Acts.
+Variable A : Type.
+Variable ops : app_ops A.
+Notation W := (world A).
+
+Definition sync_of (f : fdl) : Z := p_bits_to_time (f_p f) sync_pause_bits.
+
+Lemma wait_sync_val f now f1 b :
+  wait_synchronization_pause f now = Ok (f1, b) -> b = (now <=? gv now (f_lba f) + sync_of f).
+Proof.
+  unfold wait_synchronization_pause, lba_get_or_insert, sync_of. destruct (f_lba f) as [l|]; cbn [gv];
+    unfold inst_add; (destruct (i64_ok _); cbn [bind]; [|discriminate]); intros H; injection H as _ <-; reflexivity.
+Qed.
+
+Lemma wait_sync_over f now f1 b l :
+  wait_synchronization_pause f now = Ok (f1, b) -> f_lba f = Some l -> l + sync_of f < now -> b = false /\ f1 = f.
+Proof.
+  intros H Hl Hlt. pose proof (wait_sync_val _ _ _ _ H) as Hb. rewrite Hl in Hb. cbn [gv] in Hb.
+  split; [rewrite Hb; apply Z.leb_gt; exact Hlt|].
+  unfold wait_synchronization_pause, lba_get_or_insert in H. rewrite Hl in H.
+  destruct (inst_add _ _); cbn [bind] in H; try discriminate H. injection H as <- _. reflexivity.
+Qed.
+
+Lemma pass_acts f now (w : W) f' w' l :
+  do_pass_token A f now w = Ok (f', w') -> f_lba f = Some l -> l + sync_of f < now -> w_tx w' <> None.
+Proof.
+  unfold do_pass_token. intros H Hl Hlt.
+  destruct (assert_entry DoPassToken f); cbn [bind] in H; try discriminate H.
+  destruct (wait_synchronization_pause f now) as [[f1 wait]| |] eqn:Ew; cbn [bind] in H; try discriminate H.
+  destruct (wait_sync_over _ _ _ _ _ Ew Hl Hlt) as (-> & ->).
+  destruct (get_pass_token (f_state f)) as [[do_gap att]| |]; cbn [bind] in H; try discriminate H.
+  match type of H with bind ?x _ = _ => destruct x as [[[f2 w2] polled]| |] eqn:Eg end; cbn [bind] in H; try discriminate H.
+  destruct polled as [pa|].
+  - assert (Ht2 : w_tx w2 <> None).
+    { destruct do_gap; [|discriminate Eg].
+      match type of Eg with bind ?x _ = _ => destruct x as [[fa wa]| |] eqn:Ea end; cbn [bind] in Eg; try discriminate Eg.
+      destruct (transmit_gap_bk A now _ _ _ _ _ Eg) as (_ & (_ & wire & T & _)). rewrite T. discriminate. }
+    apply trans_spec in H. destruct H as (s' & _ & _ & ->). exact Ht2.
+  - destruct (phy_send A w2 _) as [[w3 k]| |] eqn:Ep; cbn [bind] in H; try discriminate H.
+    destruct (witness _ _ _) as [r| |]; cbn [bind] in H; try discriminate H.
+    match type of H with bind ?x _ = _ => destruct x as [[f4 w4]| |] eqn:E4 end; cbn [bind] in H; try discriminate H.
+    destruct (mark_tx f4 now k) as [f5| |] eqn:Em; cbn [bind] in H; try discriminate H.
+    injection H as <- <-.
+    apply phy_send_tx in Ep. destruct Ep as (_ & (wire & T3) & _).
+    assert (H4 : w_tx w4 = w_tx w3).
+    { destruct (r_ns (f_ring (set_ring f2 r)) =? ts (set_ring f2 r)).
+      - apply trans_spec in E4. destruct E4 as (s' & _ & _ & ->). reflexivity.
+      - destruct (get_pass_token _) as [[g2 a2]| |]; cbn [bind] in E4; try discriminate E4.
+        apply trans_spec in E4. destruct E4 as (s' & _ & _ & ->). reflexivity. }
+    rewrite H4, T3. discriminate.
+Qed.
+
+Lemma use_acts f now (w : W) f' w' l :
+  do_use_token A ops f now w = Ok (f', w') -> f_lba f = Some l -> l + sync_of f < now -> w_tx w = None ->
+  w_tx w' <> None.
+Proof.
+  unfold do_use_token. intros H Hl Hlt Hw.
+  destruct (assert_entry DoUseToken f); cbn [bind] in H; try discriminate H.
+  destruct (get_use_token (f_state f)) as [[[tk fa] fcd]| |]; cbn [bind] in H; try discriminate H.
+  match type of H with bind ?x _ = _ => destruct x as [[f1 w1]| |] eqn:E1 end; cbn [bind] in H; try discriminate H.
+  assert (H1 : frm A f w f1 w1).
+  { destruct (negb _).
+    - destruct (inst_add _ _) as [e| |]; cbn [bind] in E1; try discriminate E1.
+      destruct (f_gap f).
+      + injection E1 as <- <-. unfold frm. cbn. tauto.
+      + destruct (inst_sub_dur _ _) as [e2| |]; cbn [bind] in E1; try discriminate E1.
+        injection E1 as <- <-. unfold frm. cbn. tauto.
+    - injection E1 as <- <-. apply frm_refl. }
+  destruct H1 as (T1 & R1 & L1 & P1 & Q1).
+  assert (Hw1 : w_tx w1 = None) by congruence.
+  assert (Hl1 : f_lba f1 = Some l) by congruence.
+  assert (Hlt1 : l + sync_of f1 < now) by (unfold sync_of in *; rewrite Q1; exact Hlt).
+  destruct (wait_synchronization_pause f1 now) as [[f2 wait]| |] eqn:Ew; cbn [bind] in H; try discriminate H.
+  destruct (wait_sync_over _ _ _ _ _ Ew Hl1 Hlt1) as (-> & ->).
+  destruct (get_use_token (f_state f1)) as [[[tk2 fa2] fcd2]| |]; cbn [bind] in H; try discriminate H.
+  match type of H with bind ?x _ = _ => destruct x as [[[f3 w3] done]| |] eqn:E3 end; cbn [bind] in H; try discriminate H.
+  assert (H3 : if done then txs A now f1 w1 f3 w3 else frm A f1 w1 f3 w3).
+  { destruct (now <? f_end_tht f1).
+    - destruct (set_first_cycle_done f1) as [f2'| |] eqn:Es; cbn [bind] in E3; try discriminate E3.
+      pose proof (set_first_cycle_done_frm A _ _ w1 Es) as Hs.
+      unfold apps_transmit_telegram in E3. apply (apps_loop_bk A ops now) in E3. destruct done.
+      + eapply frm_txs; [eapply frm_trans; [exact Hs|]|apply E3; exact Hw1]. unfold frm. cbn. tauto.
+      + eapply frm_trans; [exact Hs|]. eapply frm_trans; [|exact E3]. unfold frm. cbn. tauto.
+    - destruct (negb fcd2).
+      + destruct (set_first_cycle_done f1) as [f2'| |] eqn:Es; cbn [bind] in E3; try discriminate E3.
+        pose proof (set_first_cycle_done_frm A _ _ w1 Es) as Hs.
+        unfold apps_transmit_telegram in E3. apply (apps_loop_bk A ops now) in E3. destruct done.
+        * eapply frm_txs; [eapply frm_trans; [exact Hs|]|apply E3; exact Hw1]. unfold frm. cbn. tauto.
+        * eapply frm_trans; [exact Hs|]. eapply frm_trans; [|exact E3]. unfold frm. cbn. tauto.
+      + injection E3 as <- <- <-. unfold frm. cbn. tauto. }
+  destruct done.
+  - injection H as <- <-. destruct H3 as (_ & wire & T & _). rewrite T. discriminate.
+  - destruct H3 as (T3 & R3 & L3 & P3 & Q3).
+    destruct (trans A f3 w3 _) as [[f4 w4]| |] eqn:Et; cbn [bind] in H; try discriminate H.
+    apply trans_spec in Et. destruct Et as (s' & _ & -> & ->).
+    refine (pass_acts _ _ _ _ _ l H _ _).
+    + cbn. congruence.
+    + unfold sync_of in *. cbn. rewrite Q3. exact Hlt1.
+Qed.
+
+Lemma claim_acts f now (w : W) f' w' l st :
+  do_claim_token A f now w = Ok (f', w') -> f_state f = ClaimToken st ->
+  (forall a, st <> StepScanAwaitResponse a) ->
+  f_lba f = Some l -> l + sync_of f < now ->
+  w_tx w' <> None \/ kind_of (f_state f') <> KClaimToken \/ (gapdue f = true /\ gapdue f' = false).
+Proof.
+  unfold do_claim_token, assert_entry. intros H Es Hst Hl Hlt. rewrite Es in H.
+  cbn [kind_of do_fn_entry state_kind_eqb bind get_claim_token_step] in H.
+  assert (Htok : forall nxt,
+    (let* (f0, wait) := wait_synchronization_pause f now in
+     if wait then Ok (f0, note A w TSyncWait)
+     else let* (w0, n) := phy_send A w (TxToken (ts f0) (ts f0)) in
+          let f1 := set_ring f0 (claim_token (f_ring f0)) in
+          let* f2 := set_claim_step f1 nxt in
+          let f3 := set_gap f2 (GapDoPoll (ts f2)) in
+          let* f4 := mark_tx f3 now n in Ok (f4, note A w0 TClaimSendToken)) = Ok (f', w') -> w_tx w' <> None).
+  { intros nxt H0.
+    destruct (wait_synchronization_pause f now) as [[f1 wait]| |] eqn:Ew; cbn [bind] in H0; try discriminate H0.
+    destruct (wait_sync_over _ _ _ _ _ Ew Hl Hlt) as (-> & ->).
+    destruct (phy_send A w _) as [[w1 k]| |] eqn:Ep; cbn [bind] in H0; try discriminate H0.
+    destruct (set_claim_step _ nxt) as [f2| |] eqn:Es2; cbn [bind] in H0; try discriminate H0.
+    match type of H0 with bind (mark_tx ?fx now k) _ = _ => destruct (mark_tx fx now k) as [f4| |] eqn:Em end; cbn [bind] in H0; try discriminate H0.
+    injection H0 as <- <-. apply phy_send_tx in Ep. destruct Ep as (_ & (wire & T) & _). cbn. rewrite T. discriminate. }
+  destruct st as [ | | |a0].
+  - left. exact (Htok _ H).
+  - left. exact (Htok _ H).
+  - unfold do_claim_token_scan in H.
+    destruct (wait_synchronization_pause f now) as [[f1 wait]| |] eqn:Ew; cbn [bind] in H; try discriminate H.
+    destruct (wait_sync_over _ _ _ _ _ Ew Hl Hlt) as (-> & ->).
+    destruct (f_gap f) as [rc|cur] eqn:Eg.
+    + match type of H with bind ?x _ = _ => destruct x as [[f2 w2]| |] eqn:Et end; cbn [bind] in H; try discriminate H.
+      injection H as <- <-. apply trans_spec in Et. destruct Et as (s' & Ht & -> & _). right. left.
+      unfold transition_pass_token in Ht. destruct (assert_kind _ _); cbn [bind] in Ht; try discriminate Ht. injection Ht as <-.
+      cbn. discriminate.
+    + destruct (next_gap_poll_traced A f w cur) as [[f2 w2]| |] eqn:En; cbn [bind] in H; try discriminate H.
+      apply next_gap_poll_traced_spec in En. destruct En as (g & _ & -> & _).
+      destruct (transmit_gap_poll_if_pending A (set_gap f g) now w2) as [[[f3 w3] polled]| |] eqn:Etg; cbn [bind] in H; try discriminate H.
+      destruct (transmit_gap_bk A now _ _ _ _ _ Etg) as (_ & Hg).
+      destruct polled as [a|].
+      * destruct (set_claim_step f3 _) as [f4| |] eqn:Es4; cbn [bind] in H; try discriminate H.
+        injection H as <- <-. left. destruct Hg as (_ & wire & T & _). cbn. rewrite T. discriminate.
+      * destruct Hg as (-> & ->). injection H as <- <-. right. right. unfold gapdue. rewrite Eg. split; [reflexivity|].
+        cbn [f_gap set_gap]. unfold transmit_gap_poll_if_pending in Etg. cbn [f_gap set_gap] in Etg.
+        destruct g as [rc|c2]; [reflexivity|]. exfalso.
+        destruct (c2 =? _); [discriminate Etg|].
+        destruct (phy_send A w2 _) as [[w4 k]| |]; cbn [bind] in Etg; try discriminate Etg.
+        destruct (mark_tx _ now k); cbn [bind] in Etg; discriminate Etg.
+  - exfalso. exact (Hst a0 eq_refl).
+Qed.
+
+Lemma handle_lost_token_false f now (w : W) f0 w0 l :
+  handle_lost_token A f now w = Ok (f0, w0, false) -> f_lba f = Some l -> f0 = f /\ w0 = w.
+Proof.
+  unfold handle_lost_token, lba_get_or_insert. intros H Hl. rewrite Hl in H.
+  destruct (inst_diff now l); cbn [bind] in H; try discriminate H.
+  match type of H with (if ?c then _ else _) = _ => destruct c end.
+  - match type of H with context [trans A ?a ?b ?c] => destruct (trans A a b c) as [[fy wy]| |] end; cbn [bind] in H; try discriminate H.
+    destruct (do_claim_token A fy now wy) as [[fz wz]| |]; cbn [bind] in H; discriminate H.
+  - injection H as <- <-. split; reflexivity.
+Qed.
+
+Lemma listen_acts f now (w : W) f' w' l src cc :
+  do_listen_token A f now w = Ok (f', w') -> f_state f = ListenToken (Some src) cc ->
+  f_lba f = Some l -> l + sync_of f < now ->
+  w_tx w' <> None \/ kind_of (f_state f') = KClaimToken.
+Proof.
+  unfold do_listen_token. intros H Es Hl Hlt.
+  destruct (assert_entry DoListenToken f); cbn [bind] in H; try discriminate H.
+  destruct (handle_lost_token A f now w) as [[[f0 w0] d]| |] eqn:Eh; cbn [bind] in H; try discriminate H.
+  destruct d.
+  { injection H as <- <-. right. destruct (handle_lost_token_claims A _ _ _ _ _ Eh) as [-> | ->]; reflexivity. }
+  destruct (handle_lost_token_false _ _ _ _ _ _ Eh Hl) as (-> & ->).
+  rewrite Es in H. cbn [get_listen_token bind] in H.
+  destruct (wait_synchronization_pause f now) as [[f1 wait]| |] eqn:Ew; cbn [bind] in H; try discriminate H.
+  destruct (wait_sync_over _ _ _ _ _ Ew Hl Hlt) as (-> & ->).
+  destruct (phy_send A w _) as [[w1 k]| |] eqn:Ep; cbn [bind] in H; try discriminate H.
+  match type of H with bind ?x _ = _ => destruct x as [[f2 w2]| |] eqn:E2 end; cbn [bind] in H; try discriminate H.
+  destruct (mark_tx f2 now k) as [f3| |] eqn:Em; cbn [bind] in H; try discriminate H.
+  injection H as <- <-. left.
+  apply phy_send_tx in Ep. destruct Ep as (_ & (wire & T) & _).
+  assert (H2 : w_tx w2 = w_tx w1).
+  { destruct (ready_for_ring (f_ring f)).
+    - apply trans_spec in E2. destruct E2 as (s' & _ & _ & ->). reflexivity.
+    - destruct (get_listen_token (f_state f)) as [[sr1 cc1]| |]; cbn [bind] in E2; try discriminate E2.
+      injection E2 as _ <-. reflexivity. }
+  rewrite H2, T. discriminate.
+Qed.
+
+Lemma idle_acts f now (w : W) f' w' l src nps cc :
+  do_active_idle A f now w = Ok (f', w') -> f_state f = ActiveIdle (Some src) nps cc ->
+  f_lba f = Some l -> l + sync_of f < now ->
+  w_tx w' <> None \/ kind_of (f_state f') = KClaimToken.
+Proof.
+  unfold do_active_idle. intros H Es Hl Hlt.
+  destruct (assert_entry DoActiveIdle f); cbn [bind] in H; try discriminate H.
+  destruct (handle_lost_token A f now w) as [[[f0 w0] d]| |] eqn:Eh; cbn [bind] in H; try discriminate H.
+  destruct d.
+  { injection H as <- <-. right. destruct (handle_lost_token_claims A _ _ _ _ _ Eh) as [-> | ->]; reflexivity. }
+  destruct (handle_lost_token_false _ _ _ _ _ _ Eh Hl) as (-> & ->).
+  rewrite Es in H. cbn [get_active_idle bind] in H.
+  destruct (wait_synchronization_pause f now) as [[f1 wait]| |] eqn:Ew; cbn [bind] in H; try discriminate H.
+  destruct (wait_sync_over _ _ _ _ _ Ew Hl Hlt) as (-> & ->).
+  destruct (phy_send A w _) as [[w1 k]| |] eqn:Ep; cbn [bind] in H; try discriminate H.
+  match type of H with bind (mark_tx ?fx now k) _ = _ => destruct (mark_tx fx now k) as [f3| |] eqn:Em end; cbn [bind] in H; try discriminate H.
+  injection H as <- <-. left.
+  apply phy_send_tx in Ep. destruct Ep as (_ & (wire & T) & _). cbn. rewrite T. discriminate.
+Qed.
+
+(* the gated states: once the synchronisation pause is over the station acts *)
+Theorem gated_acts f now (w : W) f' w' l :
+  C11Proofs.dispatch A ops f now w = Ok (f', w') -> gatedS (f_state f) = true ->
+  f_lba f = Some l -> l + sync_of f < now -> w_tx w = None ->
+  w_tx w' <> None \/ kind_of (f_state f') <> kind_of (f_state f) \/ gapdue f' <> gapdue f.
+Proof.
+  unfold C11Proofs.dispatch. intros H Hg Hl Hlt Hw.
+  destruct (f_state f) as [ | |sr cc|sr nps cc|tk fa fcd|st|a1 tk fa|dg att|att|a0] eqn:Es; try discriminate Hg;
+    cbn [kind_of poll_dispatch] in H.
+  - destruct sr as [src|]; [|discriminate Hg].
+    destruct (listen_acts _ _ _ _ _ _ _ _ H Es Hl Hlt) as [T|K]; [left; exact T|right; left; rewrite K; discriminate].
+  - destruct sr as [src|]; [|discriminate Hg].
+    destruct (idle_acts _ _ _ _ _ _ _ _ _ H Es Hl Hlt) as [T|K]; [left; exact T|right; left; rewrite K; discriminate].
+  - left. exact (use_acts _ _ _ _ _ _ H Hl Hlt Hw).
+  - assert (Hst : forall a, st <> StepScanAwaitResponse a) by (intros a ->; discriminate Hg).
+    destruct (claim_acts _ _ _ _ _ _ _ H Es Hst Hl Hlt) as [T|[K|(G1 & G2)]];
+      [left; exact T|right; left; exact K|right; right; rewrite G1, G2; discriminate].
+  - left. exact (pass_acts _ _ _ _ _ _ H Hl Hlt).
+Qed.
+
+(* ------------------------------------------------------------------------------------------ *)
+(* (3) listening without a pending status request: nothing consumed, nothing sent = no change   *)
+
+Lemma listen_none_quiet f now (w : W) f' w' cc :
+  do_listen_token A f now w = Ok (f', w') -> f_state f = ListenToken None cc ->
+  (forall l, f_lba f = Some l -> l <= now) ->
+  0 <= sync_of f < token_lost_timeout (f_p f) ->
+  length (w_rx w') = length (w_rx w) -> w_tx w' = None ->
+  f_state f' = ListenToken None cc.
+Proof.
+  unfold do_listen_token. intros H Es Hnp Hst Hlen Hn.
+  destruct (assert_entry DoListenToken f); cbn [bind] in H; try discriminate H.
+  destruct (handle_lost_token A f now w) as [[[f0 w0] d]| |] eqn:Eh; cbn [bind] in H; try discriminate H.
+  destruct d.
+  - exfalso. injection H as <- <-. unfold handle_lost_token in Eh.
+    destruct (lba_get_or_insert f now) as [l0 fx] eqn:El.
+    apply lba_get_or_insert_same in El. destruct El as ((Hpx & _ & _ & _ & Hsx & _) & Hlx & Hm).
+    assert (Hl0 : l0 <= now) by (destruct (f_lba f) as [lf|] eqn:Elf; [subst l0; exact (Hnp lf eq_refl)|lia]).
+    unfold inst_diff in Eh. destruct (i64_ok (now - l0)); cbn [bind] in Eh; try discriminate Eh.
+    destruct (Z.leb_spec (token_lost_timeout (f_p fx)) (Z.abs (now - l0))) as [Hto|_]; [|discriminate Eh].
+    match type of Eh with context [trans A ?a ?b ?c] => destruct (trans A a b c) as [[f1 w1]| |] eqn:Et end; cbn [bind] in Eh; try discriminate Eh.
+    apply trans_spec in Et. destruct Et as (s1 & Ht & -> & ->).
+    unfold transition_claim_token in Ht. destruct (assert_kind _ _); cbn [bind] in Ht; try discriminate Ht. injection Ht as <-.
+    destruct (do_claim_token A _ now _) as [[f2 w2]| |] eqn:Ed; cbn [bind] in Eh; try discriminate Eh.
+    injection Eh as <- <-.
+    unfold do_claim_token, assert_entry in Ed. cbn [f_state set_st kind_of do_fn_entry state_kind_eqb bind get_claim_token_step] in Ed.
+    destruct (wait_synchronization_pause _ now) as [[f3 wait]| |] eqn:Ew; cbn [bind] in Ed; try discriminate Ed.
+    pose proof (wait_sync_val _ _ _ _ Ew) as Hb. cbn [f_lba set_st] in Hb. rewrite Hlx in Hb. cbn [gv] in Hb.
+    unfold sync_of in Hb, Hst. cbn [f_p set_st] in Hb. rewrite Hpx in Hb, Hto.
+    destruct wait.
+    + symmetry in Hb. apply Z.leb_le in Hb. rewrite Z.abs_eq in Hto by lia. lia.
+    + destruct (phy_send A _ _) as [[w3 k]| |] eqn:Ep; cbn [bind] in Ed; try discriminate Ed.
+      destruct (set_claim_step _ _) as [f4| |]; cbn [bind] in Ed; try discriminate Ed.
+      match type of Ed with bind (mark_tx ?fy now k) _ = _ => destruct (mark_tx fy now k) as [f5| |] end; cbn [bind] in Ed; try discriminate Ed.
+      injection Ed as _ <-. apply phy_send_tx in Ep. destruct Ep as (_ & (wire & T) & _). cbn in Hn. rewrite T in Hn. discriminate Hn.
+  - pose proof (handle_lost_token_keeps A _ _ _ _ _ Eh) as Hs0.
+    pose proof (handle_lost_token_nm A now _ _ _ _ _ Eh) as (S0 & _).
+    rewrite Hs0, Es in H. cbn [get_listen_token bind] in H.
+    unfold receive_all_telegrams in H.
+    destruct (receive_all _ _ (f0, w0) (w_rx w0)) as [[[s1 rest] r]| |] eqn:Er; cbn [bind] in H; try discriminate H.
+    destruct s1 as [f1 w1]. injection H as <- <-. cbn [w_rx set_rx] in Hlen.
+    destruct (receive_all_suffix _ _ _ _ _ _ _ Er) as [k Ek].
+    pose proof (suffix_len A _ _ S0) as Hle.
+    assert (Hlen0 : length rest = length (w_rx w0)) by (rewrite Ek, skipn_length in *; lia).
+    pose proof (receive_all_len _ _ _ _ _ _ Er Hlen0) as E1. injection E1 as -> ->.
+    cbn. rewrite Hs0. exact Es.
+Qed.
+
+(* ------------------------------------------------------------------------------------------ *)
+(* a poll of a station that is online: the connectivity prologue, then the body                 *)
+
+Lemma poll_body f now busy rxb (apps : list A) f' o apps' calls k :
+  poll ops f now (mkPhyIn busy rxb) apps = Ok (f', o, apps', calls) -> Rep k f -> f_conn f = ConnOnline ->
+  exists f0 (w0 w' : W),
+    ((f_state f <> Offline /\ f0 = f) \/ (f_state f = Offline /\ f0 = set_st f (ListenToken None 0))) /\
+    w_rx w0 = rxb /\ w_tx w0 = None /\ w_calls w0 = [] /\
+    C11Proofs.body A ops f0 now busy w0 = Ok (f', w') /\
+    o = mkPhyOut (w_tx w') (w_rx w') /\ apps' = w_apps w' /\ calls = w_calls w'.
+Proof.
+  intros E R Hc. apply (C11Proofs.poll_inv A ops) in E. destruct E as (w' & H & -> & -> & ->). cbn [tx_busy rx] in H.
+  destruct (f_state f) as [ | |sr cc|sr nps cc|tk fa fcd|st|a1 tk fa|dg att|att|a0] eqn:Es.
+  2:{ exfalso. pose proof (rep_st _ _ R) as St. rewrite Es in St. exact St. }
+  1:{ unfold poll_inner in H. rewrite Hc, Es in H. cbn [kind_of online_entry_kind] in H.
+      unfold trans, transition_listen_token, assert_kind in H. rewrite Es in H. cbn [kind_of may_transition_listen_token bind] in H.
+      rewrite C11Proofs.body_eq in H.
+      eexists. eexists. exists w'. split; [right; split; reflexivity|].
+      split; [|split; [|split; [|split; [exact H|repeat split; reflexivity]]]]; reflexivity. }
+  all: rewrite (C11Proofs.poll_inner_online A ops f now _ _ Hc ltac:(rewrite Es; reflexivity)) in H;
+    exists f; eexists; exists w'; (split; [left; split; [discriminate|reflexivity]|]);
+    (split; [|split; [|split; [|split; [exact H|repeat split; reflexivity]]]]); reflexivity.
+Qed.
+
+End Acts.
